@@ -555,13 +555,16 @@ func resourceKind(r *schema.Resource) string {
 	return k
 }
 
-func partC02(a *hcli.Args, rep *report.Report, univName string, u *schema.Universe) {
-	s := rep.S("end-to-end")
+// c02Configs lists the configurations of the end-to-end sweep; the first one takes the full
+// alphabets. Part C02 sweeps all of them, C14W the tunnelling ones and C15W the resolver bases.
+func c02Configs(part string) []Config {
 	cfgs := []Config{DefaultConfig}
+	var tunnel, bases []Config
 	for _, th := range []int{1, 1000000} {
 		c := DefaultConfig
 		c.Threshold = th
 		cfgs = append(cfgs, c)
+		tunnel = append(tunnel, c)
 	}
 	c := DefaultConfig
 	c.Strict = false
@@ -570,19 +573,58 @@ func partC02(a *hcli.Args, rep *report.Report, univName string, u *schema.Univer
 		c := DefaultConfig
 		c.Base = b
 		cfgs = append(cfgs, c)
+		bases = append(bases, c)
 	}
 	for _, mnt := range []string{"mux", "prefix"} {
 		c := DefaultConfig
 		c.Mounting = mnt
 		cfgs = append(cfgs, c)
 	}
+	// context paths that end in a resource name: the name of a sub-resource (nothing special), and the name of
+	// the root resource (the deployment path is the context path without it)
+	for _, b := range []string{"http://h/ctx/subColl", "http://h/underSimple/"} {
+		c := DefaultConfig
+		c.Base = b
+		cfgs = append(cfgs, c)
+		bases = append(bases, c)
+	}
+	for _, br := range [][2]string{{"http://h/ctx/cString", "cString"}, {"http://h/sRoot/", "sRoot"}} {
+		c := DefaultConfig
+		c.Base, c.Root = br[0], br[1]
+		cfgs = append(cfgs, c)
+		bases = append(bases, c)
+	}
+	switch part {
+	case "C14W":
+		c := DefaultConfig
+		c.Threshold = 40 // some queries of the sweep are longer, some shorter
+		return append(tunnel, c)
+	case "C15W":
+		return bases
+	}
+	return cfgs
+}
+
+func partC02(a *hcli.Args, rep *report.Report, univName string, u *schema.Universe) {
+	s := rep.S(map[string]string{"C02": "end-to-end", "C14W": "end-to-end-tunnelled", "C15W": "end-to-end-bases"}[a.Part])
+	cfgs := c02Configs(a.Part)
 	s.Bounds = fmt.Sprintf("universe=%s resources=%d; every method x every argument position x its alphabet (one argument deviates at a time; full string alphabet on get keys, finder/action string parameters, created ids) under the default configuration, reduced alphabets (thorough: the full ones as well) under each of %d configuration deviations (tunnelling threshold, lenient, resolver base, mounting)", univName, len(u.Resources), len(cfgs)-1)
+	if a.Part != "C02" {
+		var names []string
+		for _, c := range cfgs {
+			names = append(names, c.String())
+		}
+		s.Bounds = fmt.Sprintf("universe=%s resources=%d; every method x every argument position x its reduced alphabet (thorough: full) under each of the configurations %s; a call must reach the method it names with the arguments given and its reply must come back unchanged", univName, len(u.Resources), strings.Join(names, " | "))
+	}
 	item := 0
 	for ci, cfg := range cfgs {
 		w := NewWorld(u, cfg)
 		for _, r := range u.Resources {
 			if len(r.ReadOnly)+len(r.CreateOnly) > 0 {
 				continue // annotated resources strip fields on purpose: they belong to C07
+			}
+			if cfg.Root != "" && r.Segments[0].Name != cfg.Root {
+				continue
 			}
 			for _, m := range r.Methods {
 				item++
@@ -596,7 +638,7 @@ func partC02(a *hcli.Args, rep *report.Report, univName string, u *schema.Univer
 					return
 				}
 				s.States++
-				for _, p := range append([]argPos{{"none", []*schema.V{nil}}}, positions(a.Gen, r, m, ci == 0 || a.Thorough())...) {
+				for _, p := range append([]argPos{{"none", []*schema.V{nil}}}, positions(a.Gen, r, m, (ci == 0 && a.Part == "C02") || a.Thorough())...) {
 					for vi, val := range p.alpha {
 						if p.name != "none" && vi == 0 {
 							continue // the default element is the all-default call
@@ -616,11 +658,11 @@ func partC02(a *hcli.Args, rep *report.Report, univName string, u *schema.Univer
 								dev = "unset"
 							}
 							cfgDev := "default"
-							if ci > 0 {
+							if cfg != DefaultConfig {
 								cfgDev = cfg.String()
 							}
 							rep.Fail(fmt.Sprintf("%s e2e %s %s %s pos=%s %s cfg=%s", a.Gen, kind, resourceKind(r), ClientMethod(m), p.name, dev, cfgDev),
-								fmt.Sprintf("%s [%s]: %s", call, cfg, detail), e2eReplay{a.Gen, "C02", univName, r.Namespace, m.Name, p.name, devOf(val), cfg})
+								fmt.Sprintf("%s [%s]: %s", call, cfg, detail), e2eReplay{a.Gen, a.Part, univName, r.Namespace, m.Name, p.name, devOf(val), cfg})
 							s.Class("fail:" + kind)
 						} else {
 							s.Class("ok:" + m.Kind)
